@@ -406,6 +406,34 @@ def check_mode(facts):
         else:
             r.ok(key, "every return passes the table search")
     r.floor("table_searching_canonicalisers", ns, 2)
+    # preimages are found by scanning the whole table: the rows are sorted by *source*, the targets are not (deltas of both signs),
+    # so an `unfold*` function iterates over the entire static table — the argument of `.iter()` is the array itself (an unsizing
+    # of `&[FoldRange; N]`), never a sub-slice chosen by a search window
+    nu = 0
+    for fn in sorted(facts.body_names()):
+        if not re.match(r"^unicode::unfold\w*$", fn):
+            continue
+        b = facts.body(fn)
+        k = 0
+        for bb, t in b.iter_calls():
+            cal = t.get("callee") or ""
+            aty = str(t["args"][0].get("pl", {}).get("ty", "")) if t["args"] else ""
+            if not (cal.endswith("::iter") or cal.endswith("IntoIterator::into_iter")) or not aty.startswith("&[unicode::FoldRange"):
+                continue
+            nu += 1
+            k += 1
+            key = "%s table scan #%d covers the whole table" % (fn, k)
+            d = b.single_def(t["args"][0]["pl"]["l"]) if t["args"][0].get("k") in ("copy", "move") else None
+            whole = bool(d) and d[2] == "assign" and d[3]["rv"]["k"] == "cast" and "Unsize" in str(d[3]["rv"].get("ck")) and \
+                re.search(r"\[unicode::FoldRange; \d+\]", str(d[3]["rv"].get("from", "")))
+            if whole:
+                r.ok(key)
+            else:
+                r.fail(key, "%s iterates over a part of the case table (line %s): rows are sorted by source, not by target, and deltas have "
+                            "both signs (down to -42561), so a window chosen from the sources misses preimages that lie far away "
+                            "(U+AB70 folds to U+13A0: `[Ꭰ]` under `i` no longer matches it)" % (fn.split("::")[-1], t.get("line")),
+                       facts.loc(fn, t.get("line")))
+    r.floor("preimage_table_scans", nu, 2)
     return r
 
 
